@@ -47,7 +47,7 @@ PROPS = {
     "C33": {
         "title": "Heap writes never exceed the reserved capacity",
         "v_units": ["heap"],
-        "ob_filter": {"heap": [r"^(InnerHeap_grow|Heap_grow|Heap_new|Heap_with_cell_capacity|Heap_free_space|Heap_cell_len|Heap_byte_len|Heap_is_empty|Heap_truncate|Heap_push_cell|Heap_append|Heap_copy_pstr_within|Heap_reserve|Heap_copy_slice_to_end|ReservedHeapSection_cell_len|ReservedHeapSection_push_cell|ReservedHeapSection_push_pstr_segment|pstr_sentinel_length)::"]},
+        "ob_filter": {"heap": [r"^(InnerHeap_grow|Heap_grow|Heap_new|Heap_with_cell_capacity|Heap_free_space|Heap_cell_len|Heap_byte_len|Heap_is_empty|Heap_truncate|Heap_push_cell|Heap_append|Heap_copy_pstr_within|Heap_reserve|Heap_copy_slice_to_end|ReservedHeapSection_cell_len|ReservedHeapSection_push_cell|ReservedHeapSection_push_pstr_segment|ReservedHeapSection_push_pstr|pstr_sentinel_length)::", r"^lemma::(lemma_pushed_nonneg|lemma_reservation_suffices|lemma_first_zero_is_zero|lemma_first_zero_bounds|lemma_pstr_cells_nonneg)$"]},
         "k_groups": [],
         "replay": "heap",
         "level": "proof",
@@ -55,7 +55,7 @@ PROPS = {
     "C20": {
         "title": "Strings behave exactly like the character lists they denote",
         "v_units": ["heap", "pstrcmp"],
-        "ob_filter": {"heap": [r"^(pstr_sentinel_length|Heap_heap_cell_alignment|Heap_pstr_tail_idx|ReservedHeapSection_push_pstr_segment|scan_slice_to_str_from_start|Heap_compute_pstr_size)::", r"^lemma::(lemma_layout_agreement|lemma_scan_is_seg|lemma_first_zero_bounds|lemma_pstr_cells_nonneg)$"]},
+        "ob_filter": {"heap": [r"^(pstr_sentinel_length|Heap_heap_cell_alignment|Heap_pstr_tail_idx|ReservedHeapSection_push_pstr_segment|ReservedHeapSection_push_pstr|scan_slice_to_str_from_start|Heap_compute_pstr_size)::", r"^lemma::(lemma_layout_agreement|lemma_scan_is_seg|lemma_first_zero_bounds|lemma_pstr_cells_nonneg|lemma_pushed_nonneg|lemma_reservation_suffices|lemma_first_zero_is_zero)$"]},
         "k_groups": [],
         "replay": "heap",
         "level": "proof",
